@@ -451,7 +451,8 @@ def verify(spec, registry=None, max_paths=400, only_clauses=None, only_cfg=None)
                 post_env = dict(env_all)
                 post_env["old"] = old
                 for k, v in old.items():
-                    post_env["old_" + k] = v
+                    if "old_" + k not in post_env:
+                        post_env["old_" + k] = v
                 raises = spec.get("raises") or {}
                 if outcome[0] == "return":
                     post_env["result"] = outcome[1]
